@@ -132,6 +132,7 @@ CLAIMS = {
                  "setter calls with the segment pushes yields the same builder state), pushes_eq_segments (push_segment one by one = segments(vec) for "
                  "implicitly numbered segments), parser_is_builder + builder_text_agree (the text parser ends in build() of exactly the builder state a "
                  "user would create for the same content, so acceptance and resulting value coincide for every implicitly numbered content), "
+                 "segment_number_last_wins / segment_number_none_resets (MediaSegmentBuilder::number: the last call decides; None takes an explicit number back), "
                  "build_never_panics (any builder whose byte-range values fit the integer type), built_numbering (every built playlist is gap-free, "
                  "implicit numbers = media_sequence + position, explicit numbers preserved), master_parser_is_builder, master_build_never_panics; the tag "
                  "builders' rules are C14. Tie: abstract contents realised as text, as push scripts with shuffled/interleaved setters and as segments(vec) "
